@@ -78,6 +78,30 @@ def check(ctx, name, body, table, skip=()):
             ctx.check(pushes == ['keep-new'] and advs == A_NEW, 'K4', '%s:sole-new' % name, 'sole new item kept, new advanced',
                       '%s: key only in new -> pushes %s, advances %s' % (name, pushes, advs))
             seen.add('greater')
+        elif (old, new) == ('Some', 'Some') and cmpv == 'Equal' and ('|' in (acts.get('old') or '') or '|' in (acts.get('new') or '')):
+            # an or-pattern arm `(Withdraw(p), Announce | Update(_))` stands for each of its members
+            for ao in (acts.get('old') or '').split('|'):
+                for an in (acts.get('new') or '').split('|'):
+                    key = (ao or None, an or None, prov)
+                    ctx.check(advs == A_BOTH, 'K4', '%s:equal%s:advance' % (name, key), 'both cursors advance', '%s row %s advances %s' % (name, key, advs))
+                    if (key[0], key[1]) in skip:
+                        seen.add(key)
+                        continue
+                    if key not in table:
+                        ctx.bad('K4', '%s:unexpected-row:%s' % (name, key), '%s has an equal-key row %s not in the merge table' % (name, key))
+                        continue
+                    seen.add(key)
+                    exp = table[key]
+                    got = pushes[0] if pushes else None
+                    if got is not None and got[0] != 'new-key' and got[0] != 'old-key':
+                        got = ('?',) + tuple(got)
+                    gotn = None if got is None else (got[1], got[2])
+                    ctx.check(gotn == exp and len(pushes) <= 1, 'K4', '%s:equal%s' % (name, key), '-> %s' % (gotn,),
+                              '%s: same key with (old action %s, new action %s%s) yields %s, expected %s'
+                              % (name, key[0], key[1], (', providers ' + key[2]) if key[2] else '', gotn, exp))
+                    if prov is not None:
+                        ctx.check(acts.get('prov_operands_ok', False), 'K4', '%s:equal%s:provider-operands' % (name, key),
+                                  'the remembered OLD-action providers are compared with the NEW item\'s providers', 'provider comparison operands changed')
         elif (old, new) == ('Some', 'Some') and cmpv == 'Equal':
             key = (acts.get('old'), acts.get('new'), prov)
             ctx.check(advs == A_BOTH, 'K4', '%s:equal%s:advance' % (name, key), 'both cursors advance', '%s row %s advances %s' % (name, key, advs))
